@@ -35,6 +35,8 @@ func init() {
 }
 
 func runC15(c *an.Ctx) {
+	c.Floor("C15-R7", 1)
+	mainPipeline(c, "C15-R7")
 	c.Floor("C15-R1", 1)
 	c.Floor("C15-R2", 3)
 	c.Floor("C15-R3", 4)
